@@ -24,10 +24,11 @@ type concOracles struct {
 
 // blockCommit is one (transaction, block) application in latch order.
 type blockCommit struct {
-	mt    *MTxn
-	block uint32
-	seq   uint64
-	done  bool // the write latch was released (AfterUnlock reached)
+	mt                 *MTxn
+	block              uint32
+	seq                uint64
+	done               bool // the write latch was released (AfterUnlock reached)
+	startStep, endStep int  // scheduler steps at which the block latch was taken / released
 }
 
 // snapRec is one snapshot taken by the snapshotter thread.
@@ -58,7 +59,8 @@ type concState struct {
 	writersLeft int
 	applied     int
 	setupSnap   []byte
-	fd0         int // open descriptors before the threads start (C14 part B)
+	fd0         int            // open descriptors before the threads start (C14 part B)
+	trigs       []*concTrigger // triggers created by the schema thread (C19 part B)
 	setupModel  *Model
 	// stream bookkeeping
 	committedBlocks map[*MTxn]map[uint32]bool
@@ -164,6 +166,19 @@ func runConc(cs *Case, or concOracles) (w *World) {
 	if cs.Sched == nil {
 		w.sim.replay = nil
 	}
+	w.mergeYields = cs.Cfg.Prefill == nil || len(cs.Cfg.Prefill.KeepFull) == 0
+	for _, tp := range cs.Threads {
+		for _, t := range tp.Txns {
+			for _, op := range t.Ops {
+				if (op.Kind == "mkindex" || op.Kind == "mksort") && w.avoid["index-build-during-apply"] {
+					// known finding: a commit pre-empted inside a column's Apply (only reachable through
+					// the merge-function yield) misses an index registered meanwhile
+					w.mergeYields = false
+				}
+			}
+		}
+	}
+	w.capFor = map[int]*filterCapture{}
 	for _, k := range cs.Muted {
 		if k > 0 && k < int(ptMax) {
 			w.sim.muted[k] = true
@@ -210,7 +225,37 @@ func runConc(cs *Case, or concOracles) (w *World) {
 				for xi := range tp.Txns {
 					for oi := range tp.Txns[xi].Ops {
 						op := &tp.Txns[xi].Ops[oi]
-						if op.Index == nil || w.stopped() {
+						if w.stopped() {
+							continue
+						}
+						for _, ot := range w.sim.threads {
+							if !ot.done && ot.pt.Kind == ptInMerge && (op.Kind == "mkindex" || op.Kind == "mksort") {
+								w.noteTrigger("index-build-during-apply")
+								w.stats.probe("index-built-while-a-commit-is-inside-apply")
+							}
+						}
+						switch op.Kind {
+						case "mksort":
+							if _, ok := w.model.Col(op.Sort.Col); ok {
+								if err := w.primary.CreateSortIndex(op.Sort.Name, op.Sort.Col); err != nil {
+									w.fail(violation("schema", "CreateSortIndex(%q): %v", op.Sort.Name, err))
+									return
+								}
+								w.model.Sorts = append(w.model.Sorts, *op.Sort)
+								w.stats.probe("sort-index-built-beside-writers")
+								w.sim.Yield(ptTxnEdge)
+							}
+							continue
+						case "mktrigger":
+							w.createConcTrigger(op.Name, op.Col)
+							w.sim.Yield(ptTxnEdge)
+							continue
+						case "droptrigger":
+							w.dropConcTrigger(op.Name)
+							w.sim.Yield(ptTxnEdge)
+							continue
+						}
+						if op.Index == nil {
 							continue
 						}
 						if _, ok := w.model.Col(op.Index.Col); !ok {
@@ -389,7 +434,7 @@ func (w *World) concHook(c *column.Collection, latch *smutex.SMutex128, p uint8,
 			return
 		}
 		w.seq++
-		bc := &blockCommit{mt: mt, block: arg, seq: w.seq}
+		bc := &blockCommit{mt: mt, block: arg, seq: w.seq, startStep: w.sim.steps, endStep: -1}
 		st.perBlock[arg] = append(st.perBlock[arg], bc)
 		if st.cur[tid] == nil {
 			st.cur[tid] = map[uint32]*blockCommit{}
@@ -405,6 +450,7 @@ func (w *World) concHook(c *column.Collection, latch *smutex.SMutex128, p uint8,
 		}
 		if bc := st.cur[tid][arg]; bc != nil {
 			bc.done = true
+			bc.endStep = w.sim.steps
 			delete(st.cur[tid], arg)
 			if w.ttl != nil {
 				w.noteExpired()
@@ -500,6 +546,16 @@ func (w *World) quiescentChecks() {
 			w.fail(v)
 			return
 		}
+	}
+	for _, sx := range w.model.Sorts {
+		if v := checkAscendAll(w.primary, w.model, sx); v != nil {
+			w.fail(v)
+			return
+		}
+	}
+	if v := w.checkConcTriggers(); v != nil {
+		w.fail(v)
+		return
 	}
 	if st.or.snapfault {
 		w.snapfaultQuiescent()
